@@ -3,14 +3,18 @@ open Emboss.Types
 #print axioms C13_typecheck_iff_partial
 #print axioms C13_documented_accepted
 #print axioms C13_enum_ordering_counterexample
-#print axioms C13_total_partial
-#print axioms C13_total_counterexample
+#print axioms C13_untyped_is_reported
+#print axioms C13_subexpression_errors_reported
+#print axioms C13_subexpression_accepted
 #print axioms C13_error_located
-#print axioms C13_error_file_counterexample
 #print axioms C13_check_iff_positions_ok_partial
-#print axioms C13_array_length_counterexample
 #print axioms C13_enum_value_counterexample
-#print axioms C13_passed_parameter_counterexample
 #print axioms C13_attr_value_ok
-#print axioms C13_attr_crash_counterexample
+#print axioms C13_constant_attr_mentions_no_field
+#print axioms C13_module_accepted_iff_partial
+#print axioms C13_total_partial
+#print axioms C13_total_natural_partial
+#print axioms C13_total_natural
+#print axioms C13_total_counterexample
+#print axioms C13_module_errors_located
 #print axioms C13_reported_errors_visible
